@@ -7,7 +7,7 @@ open KV
 /-- everything the semantic argument uses about `h' = substitute h c m` in regular use, except the well-formedness of
     the result; `map` = `node_map` -/
 structure SubstPre (h : NNet) (c : Nat) (m : NNet) (sh : Shape) (dn : Nat) (map : Array (Option Nat)) (h' : NNet) : Prop where
-  hwf : WF h
+  hwf : WFr h
   mwf : WF m
   hc : c < h.net.nodes.size
   hio : c ∉ h.net.io
@@ -50,10 +50,16 @@ structure SubstPre (h : NNet) (c : Nat) (m : NNet) (sh : Shape) (dn : Nat) (map 
   newLine : ∀ t (ht : t < (copiedLines m map).length),
     h'.net.line (h.net.lines.size + t) = mkLine m map (copiedLines m map)[t]
 
-/-- … with the well-formedness of the result -/
+/-- … with the well-formedness of the result (`WFr`: without the reader-side back pointer; the host may hold lines that are
+    stale on the reader side, they stay as they are): the copied lines and every host line that points back in the host
+    point back in the result, and a host line at an input pin of the cell or of a new node is a line at an input pin of the
+    instance -/
 structure SubstCert (h : NNet) (c : Nat) (m : NNet) (sh : Shape) (dn : Nat) (map : Array (Option Nat)) (h' : NNet) : Prop
     extends SubstPre h c m sh dn map h' where
-  wf' : WF h'
+  wf' : WFr h'
+  backR : ∀ l, l < h'.net.lines.size → (h.net.lines.size ≤ l ∨ PtsBack h l) → PtsBack h' l
+  ownIns : ∀ x k l, (x = c ∨ h.net.nodes.size ≤ x) → (h'.net.node x).ins.getD k none = some l → l < h.net.lines.size →
+    ∃ k0, instIn h c k0 = some l
 
 /-! ### `inTarget` / `outTarget` by cases -/
 theorem inTarget_cases {m : NNet} {map : Array (Option Nat)} {inn r rp : Nat} (h : inTarget m map inn = some (r, rp)) :
